@@ -14,9 +14,4 @@ theorem invC_take (k : Kind) (s s' : St) (a : Actor) (r : Option Nat) (hA : InvA
        rcases hp with ⟨e, rfl⟩ | ⟨e, rfl⟩ | ⟨e, rfl⟩ <;> acting hA h b
      · other h b hb)
 
-theorem invC_clock (k : Kind) (s s' : St) (a : Actor) (v : Nat) (hA : InvA k s) (h : InvC k s) (hs : stepClock s a v = some s') :
-    InvC k (bump s' (some a)) := by
-  unfold stepClock at hs
-  (repeat' (split at hs)) <;> pointwise hA h a hs
-
 end ArgoVerif.Model.PopWait
